@@ -1,7 +1,8 @@
 /-
 C29 — playback list/get return exactly the recorded media in range.  Property theorems.
 
-list (∀ segment lists that are time-ordered and non-overlapping — what a recorder with a monotone clock writes):
+list (∀ segment lists a recorder with a monotone clock writes):
+  (`WF`: durations ≥ 0, starts and ends non-decreasing, adjacent segments that are not merged do not overlap)
 * `concat_ordered`      output spans are time-ordered and pairwise disjoint
 * `concat_cover`        every recorded segment lies inside one span (nothing recorded is missing)
 * `concat_length`       #spans = 1 + #adjacent pairs that are not (same stream ∧ consecutive number): segments are
@@ -29,14 +30,20 @@ namespace MtxVerif.C29
 def Entry.fin (e : Entry) : Int := e.start + e.dur
 def Seg.fin (s : Seg) : Int := s.start + s.dur
 
-/-- recorded segments in time order, not overlapping, non-negative durations -/
+/-- what a recorder with a monotone clock writes: non-negative durations, starts and ends non-decreasing, and two
+adjacent segments that are NOT merged (different stream / not consecutive) do not overlap.  Consecutive segments of
+one stream MAY overlap: the next one starts at the oldest pending sample, the previous one ends with the newest. -/
 def WF : List Seg → Prop
   | [] => True
-  | s :: r => 0 ≤ s.dur ∧ (∀ x ∈ r, s.fin ≤ x.start) ∧ WF r
+  | [a] => 0 ≤ a.dur
+  | a :: b :: r => 0 ≤ a.dur ∧ a.start ≤ b.start ∧ a.fin ≤ b.fin ∧ (canConcat a b = false → a.fin ≤ b.start) ∧ WF (b :: r)
 
 def Ordered (es : List Entry) : Prop := es.Pairwise (fun a b => a.fin ≤ b.start)
 
-theorem wf_tail {s : Seg} {r : List Seg} (h : WF (s :: r)) : WF r := h.2.2
+theorem wf_head_dur {a : Seg} {r : List Seg} (h : WF (a :: r)) : 0 ≤ a.dur := by
+  cases r with
+  | nil => exact h
+  | cons b t => exact h.1
 
 theorem concatGo_ne_nil (prev : Seg) (cur : Entry) (l : List Seg) : concatGo prev cur l ≠ [] := by
   induction l generalizing prev cur with
@@ -54,9 +61,7 @@ theorem concatGo_starts_ge (l : List Seg) : ∀ (prev : Seg) (cur : Entry), WF (
   | nil => intro prev cur _ _ e he; simp [concatGo] at he; subst he; exact Int.le_refl _
   | cons s r ih =>
     intro prev cur hwf hcs e he
-    obtain ⟨hd, hlt, hwf'⟩ := hwf
-    have hs : prev.fin ≤ s.start := hlt s List.mem_cons_self
-    have hps : prev.start ≤ s.start := by unfold Seg.fin at hs; omega
+    obtain ⟨hd, hst, hfn, hbr, hwf'⟩ := hwf
     unfold concatGo at he
     split at he
     · exact ih s ⟨cur.start, s.start + s.dur - cur.start⟩ hwf' (by show cur.start ≤ s.start; omega) e he
@@ -73,13 +78,13 @@ theorem concatGo_ordered (l : List Seg) : ∀ (prev : Seg) (cur : Entry), WF (pr
   | nil => intro prev cur _ _ _; simp [concatGo, Ordered]
   | cons s r ih =>
     intro prev cur hwf hfin hcs
-    obtain ⟨hd, hlt, hwf'⟩ := hwf
-    have hs : prev.fin ≤ s.start := hlt s List.mem_cons_self
-    have hps : prev.start ≤ s.start := by unfold Seg.fin at hs; omega
+    obtain ⟨hd, hst, hfn, hbr, hwf'⟩ := hwf
     unfold concatGo
     split
     · exact ih s _ hwf' (by unfold Entry.fin Seg.fin; simp; omega) (by show cur.start ≤ s.start; omega)
-    · unfold Ordered
+    · rename_i hnc
+      have hs : prev.fin ≤ s.start := hbr (by simpa using hnc)
+      unfold Ordered
       rw [List.pairwise_cons]
       refine ⟨?_, ih s ⟨s.start, s.dur⟩ hwf' rfl (Int.le_refl _)⟩
       intro e he
@@ -102,10 +107,7 @@ theorem concatGo_cover (l : List Seg) : ∀ (prev : Seg) (cur : Entry), WF (prev
     exact ⟨⟨cur, by simp [concatGo], rfl, Int.le_refl _⟩, by intro s hs; cases hs⟩
   | cons s r ih =>
     intro prev cur hwf hfin hcs
-    obtain ⟨hd, hlt, hwf'⟩ := hwf
-    have hs : prev.fin ≤ s.start := hlt s List.mem_cons_self
-    have hps : prev.start ≤ s.start := by unfold Seg.fin at hs; omega
-    have hsd : 0 ≤ s.dur := hwf'.1
+    obtain ⟨hd, hst, hfn, hbr, hwf'⟩ := hwf
     unfold concatGo
     split
     · obtain ⟨⟨e, he, e1, e2⟩, i2⟩ := ih s ⟨cur.start, s.start + s.dur - cur.start⟩ hwf'
@@ -115,7 +117,7 @@ theorem concatGo_cover (l : List Seg) : ∀ (prev : Seg) (cur : Entry), WF (prev
         rw [this] at e2; exact e2
       have e1' : e.start = cur.start := e1
       refine ⟨⟨e, he, e1', ?_⟩, ?_⟩
-      · rw [hfin]; unfold Seg.fin at hs e2' ⊢; omega
+      · rw [hfin]; omega
       · intro x hx
         rcases List.mem_cons.mp hx with rfl | hx
         · exact ⟨e, he, by omega, e2'⟩
